@@ -8,7 +8,8 @@ import (
 
 func TestReplay(t *testing.T) {
 	verif.ReplayMain(map[string]func(){
-		"HarnessClientWriters": HarnessClientWriters,
-		"HarnessServerWriters": HarnessServerWriters,
+		"HarnessClientWriters":    HarnessClientWriters,
+		"HarnessCloseDuringWrite": HarnessCloseDuringWrite,
+		"HarnessServerWriters":    HarnessServerWriters,
 	})
 }
